@@ -581,8 +581,11 @@ theorem unpack_eqv : ∀ (S : Ty) (cx : Cx) (fx : Fx) (v : V), Eqv (unpack O (nl
       split
       · apply Eqv.bind (unpackNT_eqv fs cx fx v 0 _)
         intro _; exact Eqv.refl _
-      · apply Eqv.bind (unpackNTd_eqv fs cx fx v 0 _)
-        intro _; exact Eqv.refl _
+      · split
+        · apply Eqv.bind (unpackNTk_eqv fs cx fx v _ _)
+          intro _; exact Eqv.refl _
+        · apply Eqv.bind (unpackNTd_eqv fs cx fx v 0 _)
+          intro _; exact Eqv.refl _
   | .td _ req opt, cx, fx, v => by
       simp only [unpack]
       apply Eqv.bind (unpackReq_eqv req cx fx v)
@@ -628,6 +631,22 @@ theorem unpackNT_eqv : ∀ (fs : List (String × Ty)) (cx : Cx) (fx : Fx) (v : V
       intro a
       apply Eqv.bind (unpackNT_eqv fs cx fx v (i + 1) asD)
       intro _; exact Eqv.refl _
+
+theorem unpackNTk_eqv : ∀ (fs : List (String × Ty)) (cx : Cx) (fx : Fx) (v : V) (nreq : Nat) (defs : List V),
+    Eqv (unpackNTk O (nl cx) fx fs nreq defs v) (unpackNTk O (cd cx) fx fs nreq defs v)
+  | [], cx, fx, v, nreq, defs => by simp only [unpackNTk]; exact Eqv.refl _
+  | (n, t) :: fs, cx, fx, v, nreq, defs => by
+      simp only [unpackNTk]
+      split
+      · split
+        · apply Eqv.bind (unpackNTk_eqv fs cx fx v _ _)
+          intro _; exact Eqv.refl _
+        · exact Eqv.refl _
+      · rename_i x _
+        apply Eqv.bind (unpack_eqv t cx fx x)
+        intro _
+        apply Eqv.bind (unpackNTk_eqv fs cx fx v _ _)
+        intro _; exact Eqv.refl _
 
 theorem unpackNTd_eqv : ∀ (fs : List (String × Ty)) (cx : Cx) (fx : Fx) (v : V) (i : Int) (asD : Bool),
     Eqv (unpackNTd O (nl cx) fx fs v i asD) (unpackNTd O (cd cx) fx fs v i asD)
